@@ -165,6 +165,22 @@ MovesGS(h, kn) ==
         \o (IF t.part # <<>> THEN <<MUngroup(i)>> ELSE <<>>)
 
 ---------------------------------------------------------------------------
+(* grouping state around a summarize: group again / ungroup / window functions / a second summarize on the summarized table *)
+MovesRegroup(h, kn) ==
+    LET i  == Len(h)
+        t  == h[i]
+        has(n) == n \in VisNames(t)
+        c(n) == Col(ByName(t)[n])
+    IN  (IF has("g") /\ t.part = <<>> THEN <<MGroupBy(i, <<c("g")>>, FALSE)>> ELSE <<>>)
+        \o (IF has("g") /\ has("s") /\ t.part = <<>> THEN <<MGroupBy(i, <<c("g"), c("s")>>, FALSE)>> ELSE <<>>)
+        \o (IF t.part # <<>> THEN <<MUngroup(i)>> ELSE <<>>)
+        \o (IF has("b") /\ ~has("s") THEN <<MSummarize(i, <<KV("s", Fn2("add", Agg("max", c("b")), LitI(1)))>>)>> ELSE <<>>)
+        \o (IF has("s") /\ ~has("z") THEN <<MSummarize(i, <<KV("z", Agg("sum", c("s")))>>)>> ELSE <<>>)
+        \o (IF has("s") /\ ~has("w") THEN <<MMutate(i, <<KV("w", Agg("sum", c("s")))>>),
+                                                MMutate(i, <<KV("w", Win("rank", <<>>, <<Ord(c("s"), TRUE, "last")>>))>>)>> ELSE <<>>)
+        \o (IF has("s") THEN <<MFilter(i, <<Fn2("gt", c("s"), LitI(1))>>)>> ELSE <<>>)
+
+---------------------------------------------------------------------------
 (* one table object (slice_head, alias, element-wise mutate) that several pipelines extend with a verb needing a subquery: *)
 (* the subquery rewrite must not touch the shared prefix (C10), and each extension must still be accepted (C08)           *)
 MovesSubq(h, kn) ==
